@@ -164,7 +164,7 @@ def run_slice(job: dict) -> dict:
             inputs = full if desc.get("any_inputs") else frozenset(desc.get("attrs", n | t))
             if (n | t) != inputs or (n & t) or (p & e) or (p | e) != frozenset(desc.get("attrs", p | e)):
                 viol("not_a_partition", desc=desc, type=typ, got=[sorted(s) for s in gm])
-            if len(res["samples"]) < 2 and k % 1999 == 0:
+            if len(res["samples"]) < 1 and (k // W) % 97 == 3:
                 res["samples"].append({"desc": desc, "type": typ, "classification": {
                     "non-trigger": sorted(n), "trigger": sorted(t), "persistent": sorted(p), "non-persistent": sorted(e)}})
             # ---- the same through world.start() and connect() ----------------------
